@@ -180,7 +180,8 @@ class C10(CompSpec):
         "serialize_jobs / promote_to_submitter / demote_from_submitter (a copy loaded while another handle of the same host held the role); scheduled at audit granularity; oracles: (1) interval history check - definite hold = [promotion returned, demote called), possible "
         "hold = [promotion called, demote returned]; two definite holds never overlap, a refusal needs a possible holder; (2) after every single step of every actor the on-disk "
         "versions moved by 0 or +1 (no write from a copy that was not current); (3) an out-of-date write ends in the matching version-mismatch error and the SHA-256 of the four "
-        "state files is unchanged across each of its steps; plus a slice of full simulations with many user rounds where the submitter field seen at lock-free instants must only "
+        "state files is unchanged across each of its steps; a quarter of the histories kills one writer at its k-th file operation inside a write (staleness is then judged against the newest "
+        "version visible on disk, version file or state file); plus a slice of full simulations with many user rounds where the submitter field seen at lock-free instants must only "
         "move None->host->None and be released by the process that took it; non-trivial = history with >= 2 overlapping promotion attempts and >= 1 out-of-date write attempt"
     )
 
@@ -207,6 +208,15 @@ class C10(CompSpec):
                 "filelock": rng.choice(["", "", "", "", "legacy"]),
                 "hashseed": rng.choice([0, 1]),
             }
+            if i % 4 == 3:
+                # a writer dies in the middle of one of its writes (at its k-th file operation inside promote / update / demote);
+                # whatever is left on disk, a copy older than the newest state on disk must still be rejected.  Handles share
+                # one host so that the installed lock library can break the dead writer's marker.
+                scen["kill"] = {"handle": rng.randrange(nh), "k": rng.randint(1, 25)}
+                scen["filelock"] = ""
+                for h in handles:
+                    h["host"] = "hostA"
+                    h["prog"] = h["prog"] + ["load", "promote", "work", "demote", "stale_write", "stale_promote"]
             out.append({"fn": "sim", "args": {"scen": scen, "seed": s, "id": i, "cls": "comp.c10:S10", "prepare": "comp.c10:prepare", "trace_n": 150}})
         for i in range(self.nsim[tier]):
             s = sub_seed(seed, i, "C10sim")
@@ -245,6 +255,9 @@ class C10(CompSpec):
             "of_which_rejected": total(ok, "stale_rejected"),
             "lock_timeouts_after_poisoned_marker": total(ok, "timeouts"),
             "actor_steps_with_version_check": total(ok, "steps_version_checked"),
+            "histories_with_a_writer_killed_mid_write": sum(1 for r in ok if r.get("killed_handle")),
+            "kill_sites": hist(r.get("kill_site") for r in ok if r.get("kill_site")),
+            "out_of_date_writes_judged_after_a_kill": total(ok, "stale_after_kill"),
             "context_switches": total(ok, "switches"),
             "full_simulations": len(sims),
             "promoted_rounds_in_simulations": total(sims, "promoted_rounds"),
